@@ -99,7 +99,7 @@ let bit b = if b then "1" else "0"
 let refusal_name = function
   | ShortHeader -> "ShortHeader" | BadMagic -> "BadMagic" | BadVersion -> "BadVersion"
   | BadNumSect -> "BadNumSect" | BadSectName -> "BadSectName" | BadSectHdr -> "BadSectHdr"
-  | SectBeyondFile -> "SectBeyondFile" | ShortSection -> "ShortSection"
+  | SectBeyondFile -> "SectBeyondFile" | ShortSection -> "ShortSection" | DupSect -> "DupSect"
 
 let rec nat_of_int n = if n <= 0 then O else S (nat_of_int (n - 1))
 
@@ -139,7 +139,6 @@ let handle (line : string) : string =
     let file = bytes_arg hex in
     (match read_lib lP file with
      | Refused m -> "REFUSED " ^ refusal_name m
-     | Fault -> "FAULT"
      | Loaded h ->
        let b = Buffer.create 256 in
        Buffer.add_string b (Printf.sprintf "LOADED %s %s %s %s |" (hex_of_z h.h_magic) (hex_of_z h.h_major) (hex_of_z h.h_minor) (hex_of_z h.h_num));
@@ -158,7 +157,6 @@ let handle (line : string) : string =
     (* outcome only (fault enumeration) *)
     (match read_lib lP (bytes_arg hex) with
      | Refused m -> "REFUSED " ^ refusal_name m
-     | Fault -> "FAULT"
      | Loaded h -> "LOADED")
   | [""] -> ""
   | _ -> "ERR bad operation"
